@@ -14,6 +14,8 @@ def replay(args, outdir):
         return _two_files(a, merge)
     if lemma == 'L3b_merge_two_files_same_bins':
         return _two_files_same_bins(a)
+    if lemma == 'L6_two_reads_start_vs_site_order':
+        return _two_reads_site_order(a, merge)
     if lemma == 'L3_merge_order':
         import importlib
         H = importlib.import_module('harness.C12')
@@ -100,6 +102,41 @@ def _two_files(a, merge):
             return dict(reproduced=False)
         return dict(reproduced=True, signature='L4_two_files_same_contig_name:second_file_wrong',
                     what='counting a.bam (chr1 length %d) then b.bam (chr1 length %d) in one process: b.bam -> %r expected %r' % (LA, LB, totals['b'], exp_b))
+    finally:
+        shutil.rmtree(d, ignore_errors=True)
+
+
+def _two_reads_site_order(a, merge):
+    """a real coordinate-sorted BAM with two reads whose DS sites may be ordered opposite to their starts"""
+    import pysam
+    import singlecellmultiomics.bamProcessing.bamBinCounts as B
+    L, b, k, F = a['L'], a['b'], a['k'], a['F']
+    d = tempfile.mkdtemp(prefix='c12s', dir=os.environ.get('VERIF_SCRATCH') or None)
+    try:
+        path = os.path.join(d, 'x.bam')
+        with pysam.AlignmentFile(path, 'wb', header={'HD': {'VN': '1.6', 'SO': 'coordinate'}, 'SQ': [{'SN': 'chr1', 'LN': L}]}) as o:
+            for name, st, ds in (('qa', a['sa'], a['da']), ('qb', a['sb'], a['db'])):
+                r = pysam.AlignedSegment(o.header)
+                r.query_name, r.reference_id, r.reference_start = name, 0, st
+                r.query_sequence, r.query_qualities, r.cigarstring = 'A', [30], '1M'
+                r.is_paired, r.is_read1, r.mapping_quality = True, True, 60
+                r.set_tag('SM', 'cellA')
+                r.set_tag('DS', ds)
+                o.write(r)
+        pysam.index(path)
+        total = {}
+        for cmd in B.generate_commands(path, bin_size=b, bins_per_job=k, max_fragment_size=F, min_mq=50, key_tags=None, dedup=True, kwargs={}):
+            total = merge(total, B.count_fragments_binned(cmd))
+        exp = {}
+        for site in (a['da'], a['db']):
+            i = site // b
+            key = ('chr1', b * i, min(b * (i + 1), L))
+            exp.setdefault(key, {})
+            exp[key]['cellA'] = exp[key].get('cellA', 0) + 1
+        got = {k_: dict(v) for k_, v in total.items() if v}
+        if got == exp:
+            return dict(reproduced=False)
+        return dict(reproduced=True, signature='L6_two_reads_start_vs_site_order:table_differs', what='reads (start, DS) = (%d,%d), (%d,%d); L=%d bin=%d bins_per_job=%d max_fragment_size=%d -> %r expected %r' % (a['sa'], a['da'], a['sb'], a['db'], L, b, k, F, got, exp))
     finally:
         shutil.rmtree(d, ignore_errors=True)
 
